@@ -197,9 +197,10 @@ def selfcheck():
 def obligations(tier, seed):
     obs = []
     quick = tier == 'quick'
+    rot = set(qh.rotating([n for n in CASES if not SPEC[n][3]], seed, 8)) if quick else set()
     for name in CASES:
         a, b, kw, isq = SPEC[name]
-        if quick and not isq:
+        if quick and not isq and name not in rot:
             continue
         obs.append(qh.query_obl('C14', name, CASES[name], a, b, timeout=150 if quick else 900, **kw))
     shapes = [['ii', 'ii'], [], ['i', 'ii', '']]
